@@ -1666,6 +1666,22 @@ def __fn_name(ctx: GeneratorContext, s: str | None) -> str:
     )
 
 
+def __declared_global_names(stmts: Iterable[ast.AST]) -> list[str]:
+    """Return the names declared `global` by the statements of one function body, in
+    order of appearance, without descending into nested function or class bodies."""
+    names: list[str] = []
+    pending = list(stmts)
+    while pending:
+        node = pending.pop(0)
+        if isinstance(node, ast.Global):
+            names.extend(name for name in node.names if name not in names)
+        elif not isinstance(
+            node, (ast.FunctionDef, ast.AsyncFunctionDef, ast.ClassDef, ast.Lambda)
+        ):
+            pending[0:0] = list(ast.iter_child_nodes(node))
+    return names
+
+
 def __fn_args_to_py_ast(
     ctx: GeneratorContext,
     params: Iterable[Binding],
@@ -1741,6 +1757,12 @@ def __fn_args_to_py_ast(
         fn_body_ast.append(statementize(body_ast.node))
     else:
         fn_body_ast.append(ast.Return(value=body_ast.node))
+
+    # Python requires a `global` declaration to precede every use of the name in the
+    # function, but the body may refer to a Var before the form which (re)defs it,
+    # so declare all of the names def'ed in this function up front.
+    if global_names := __declared_global_names(fn_body_ast):
+        fn_body_ast.insert(0, ast.Global(names=global_names))
 
     return fn_args, varg, fn_body_ast, fn_def_deps
 
